@@ -347,6 +347,8 @@ def run(ctx: Ctx):
         for durs in dur_list:
             for k, c in enumerate(rig.exhaustive_cases(depth, t, durs, kind)):
                 cases.append((f"exh:{kind}:{t}:{depth}:{durs}:{k}", c))
+    for k, c in enumerate(rig.timing_cases()):   # every shipped class: its timed transition and an interrupted fix
+        cases.append((f"timing:{k}", c))
     n = ctx.scale(250, 5000)
     rng = ctx.rng.fork("svc")
     for k in range(n):
